@@ -42,6 +42,27 @@ class Boom(Exception):
     """Injected failure; the token identifies the injection site."""
 
 
+class _GetItemSeq:
+    """Unpackable with *, but neither a tuple/list nor registered as collections.abc.Iterable."""
+    def __init__(self, items):
+        self._items = tuple(items)
+
+    def __getitem__(self, i):
+        return self._items[i]
+
+
+class _KeysGetItem:
+    """Unpackable with **, but neither a dict nor registered as collections.abc.Mapping."""
+    def __init__(self, d):
+        self._d = dict(d)
+
+    def keys(self):
+        return list(self._d)
+
+    def __getitem__(self, k):
+        return self._d[k]
+
+
 def _parse_id(name):
     try:
         return int(name.rsplit("-", 1)[1])
@@ -358,9 +379,13 @@ class PoolRun:
         elif kind == "starmap":
             els = [("e%d_%d" % (r, j), j) for j in range(n)]
             exp = [repr((x, {})) for x in els]
+            # anything Python can unpack with * is a legal element: tuples, lists, old-style __getitem__ sequences
+            els = [x if (r + j) % 3 == 0 else list(x) if (r + j) % 3 == 1 else _GetItemSeq(x) for j, x in enumerate(els)]
         else:
             els = [{"x": "e%d_%d" % (r, j), "y": j} for j in range(n)]
             exp = [repr(((), x)) for x in els]
+            # ... and anything with keys() and __getitem__ can be unpacked with **
+            els = [x if (r + j) % 2 == 0 else _KeysGetItem(x) for j, x in enumerate(els)]
         return els, exp
 
     def make_iter(self, r, els):
